@@ -75,3 +75,84 @@ package candidates
 //@   ensures lowered: s.Value != nil && s.Value.val == old(s.Value.val) - old(value.val)
 //@   ensures reported: ledgerDelta(c.bus.checker, coin) == old(ledgerDelta(c.bus.checker, coin)) - old(value.val)
 //@   modifies s.Value, candDirtyMarks, candCache, ledgerDelta(c.bus.checker, coin)
+
+//@ # ---------------------------------------------------------------- punishment (C18, C16, C01)
+//@ # more views: the candidate with a given consensus address, and the list of a candidate's stake records
+//@ ghost candByTm(c *Candidates, a types.TmAddress) *Candidate
+//@ ghost stakeList(c *Candidates, pk types.Pubkey) []*stake
+//@ func (*Candidates).GetCandidateByTendermintAddress
+//@   trusted
+//@   ensures result == candByTm(c, address)
+//@   modifies candCache
+//@ func (*Candidates).GetStakes
+//@   trusted
+//@   ensures result == stakeList(c, pubkey)
+//@   modifies candCache
+
+//@ # jail periods of the network (mainnet: one day of blocks)
+//@ spec jailPeriod() int = types.CurrentChainID == types.ChainTestnet ? 354 : 17280
+//@ spec unbondPeriodC() int = types.CurrentChainID == types.ChainTestnet ? 531 : 518400
+
+//@ # what remains of a stake after the 5 % slash (rounded against the delegator), summed per owner and coin over the first n stakes
+//@ spec slashKeep(l []*stake, n int, o types.Address, co types.CoinID) int = n <= 0 ? 0 : slashKeep(l, n-1, o, co) + ((l[n-1].Owner == o && l[n-1].Coin == co) ? div(95 * l[n-1].Value.val, 100) : 0)
+//@ # the slashed part of the base-coin stakes among the first n stakes
+//@ spec slashBase(l []*stake, n int) int = n <= 0 ? 0 : slashBase(l, n-1) + (l[n-1].Coin == 0 ? l[n-1].Value.val - div(95 * l[n-1].Value.val, 100) : 0)
+//@ ghost anyOwner() types.Address
+//@ ghost anyCoin() types.CoinID
+
+//@ # C18: every stake of the byzantine candidate loses the rounded-up 5 %: the stake record goes to zero, floor(95 %) of it
+//@ # is frozen for its owner until height + unbond period (C16), and the slashed base-coin value reaches the total-slashed pool
+//@ func (*Candidates).PunishByzantineCandidate
+//@   serves C18 C16 C01
+//@   let cand = candByTm(c, tmAddress)
+//@   let l = stakeList(c, cand.PubKey)
+//@   let due = height + unbondPeriodC()
+//@   requires c != nil && c.bus != nil && cand != nil
+//@   requires nowrap: height + unbondPeriodC() <= 18446744073709551615
+//@   requires wf: forall i int :: 0 <= i && i < len(l) ==> l[i] != nil && allocated(l[i]) && l[i].Value != nil && allocated(l[i].Value) && l[i].Value.val >= 0
+//@   requires distinct: forall i int, j int :: 0 <= i && i < j && j < len(l) ==> l[i] != l[j]
+//@   requires live: allocated(l)
+//@   ensures zeroed: forall i int :: 0 <= i && i < len(l) ==> l[i].Value != nil && l[i].Value.val == 0
+//@   ensures frozen: frozenSum(c.bus.frozenfunds, due, anyOwner(), anyCoin()) == old(frozenSum(c.bus.frozenfunds, due, anyOwner(), anyCoin())) + old(slashKeep(l, len(l), anyOwner(), anyCoin()))
+//@   ensures pooled: slashTotal(c.bus.app) >= old(slashTotal(c.bus.app)) + old(slashBase(l, len(l)))
+//@   assumespre CalculateSaleReturn: state invariant, not provable locally: a staked coin exists with positive volume and reserve and the stake does not exceed the coin's volume
+//@   loop 0 invariant idx: -1 <= rangeindex && (rangeindex < len(stakes) || (rangeindex == -1 && len(stakes) == 0)) && stakes == l
+//@   loop 0 invariant zeroed: forall i int :: 0 <= i && i <= rangeindex ==> l[i].Value != nil && allocated(l[i].Value) && l[i].Value.val == 0
+//@   loop 0 invariant untouched: forall i int :: rangeindex < i && i < len(l) ==> l[i].Value == old(l[i].Value)
+//@   loop 0 invariant next: rangeindex + 1 < len(l) ==> l[rangeindex + 1].Value == old(l[rangeindex + 1].Value) && l[rangeindex + 1].Value.val == old(l[rangeindex + 1].Value.val)
+//@   loop 0 invariant frozen: frozenSum(c.bus.frozenfunds, due, anyOwner(), anyCoin()) == old(frozenSum(c.bus.frozenfunds, due, anyOwner(), anyCoin())) + old(slashKeep(l, rangeindex + 1, anyOwner(), anyCoin()))
+//@   loop 0 invariant pooled: slashTotal(c.bus.app) >= old(slashTotal(c.bus.app)) + old(slashBase(l, rangeindex + 1))
+
+//@ # jail: the candidate's jail height becomes height + jail period
+//@ func (*Candidates).Punish
+//@   serves C18
+//@   let cand = candByTm(c, address)
+//@   requires c != nil && c.bus != nil && cand != nil
+//@   ensures jailed: cand.JailedUntil == mod(height + jailPeriod(), 18446744073709551616)
+//@   modifies cand.JailedUntil, cand.isDirty, candCache, eventLog
+//@ func (*Candidates).IsCandidateJailed
+//@   serves C18
+//@   requires c != nil && candObj(c, pubkey) != nil
+//@   ensures jailedwhile: result <==> candObj(c, pubkey).JailedUntil >= block
+//@   modifies candCache
+
+//@ # read-only interface of the module as used by the transaction checks
+//@ func iface RCandidates.GetCandidate
+//@   ensures result == candObj(as(recv, "*Candidates"), arg0)
+//@   ensures (result != nil) <==> candExists(as(recv, "*Candidates"), arg0)
+//@   modifies candCache
+//@ func iface RCandidates.IsCandidateJailed
+//@   requires candObj(as(recv, "*Candidates"), arg0) != nil
+//@   ensures result <==> candObj(as(recv, "*Candidates"), arg0).JailedUntil >= arg1
+//@   modifies candCache
+//@ # status switches touch only the status (and dirty mark) of that candidate
+//@ func (*Candidates).SetOnline
+//@   serves C18
+//@   requires c != nil && candObj(c, pubkey) != nil
+//@   ensures candObj(c, pubkey).Status == CandidateStatusOnline
+//@   modifies candObj(c, pubkey).Status, candObj(c, pubkey).isDirty, candCache
+//@ func (*Candidates).SetOffline
+//@   serves C18
+//@   requires c != nil && candObj(c, pubkey) != nil
+//@   ensures candObj(c, pubkey).Status == CandidateStatusOffline
+//@   modifies candObj(c, pubkey).Status, candObj(c, pubkey).isDirty, candCache
